@@ -299,6 +299,11 @@ pub fn main_authz(args: &[String]) -> anyhow::Result<()> {
                         app.config_addr.send(ConfigRaftCmd::ConfigAdd { key, value: Arc::new(format!("CONTENT-MARK-{}", label)), config_type: None, desc: None, history_id: 1, history_table_id: None, op_time: 1, op_user: None }).await??;
                         let newkey = if ns.is_empty() { "new1\u{2}g".to_string() } else { format!("new1\u{2}g\u{2}{}", ns) };
                         app.config_addr.send(ConfigRaftCmd::ConfigRemove { key: newkey }).await??;
+                        // (an import writes the uploaded archive - the public namespace's config - into the addressed namespace)
+                        for (_, other) in nss.iter().filter(|(_, l)| l != label) {
+                            let k = if ns.is_empty() { format!("d1-MARK-{}\u{2}g", other) } else { format!("d1-MARK-{}\u{2}g\u{2}{}", other, ns) };
+                            app.config_addr.send(ConfigRaftCmd::ConfigRemove { key: k }).await??;
+                        }
                         let mut i = Instance { ip: Arc::new(format!("10.9.9.{}", if ns.is_empty() { 1 } else if *ns == "nsA" { 2 } else { 3 })), port: 8080, weight: 1.0, enabled: true, healthy: true, ephemeral: true, cluster_name: "DEFAULT".into(), service_name: Arc::new(format!("svc-MARK-{}", label)), group_name: Arc::new("DEFAULT_GROUP".into()), namespace_id: Arc::new(if ns.is_empty() { "public".to_string() } else { ns.to_string() }), ..Default::default() };
                         i.generate_key();
                         app.naming_addr.send(NamingCmd::Update(i, None)).await??;
@@ -346,6 +351,7 @@ pub fn main_authz(args: &[String]) -> anyhow::Result<()> {
                 let base = digest(app.clone()).await?;
                 let svc = test::init_service(App::new().app_data(web::Data::new(app.clone())).app_data(web::Data::new(app.config_addr.clone())).app_data(web::Data::new(app.naming_addr.clone())).app_data(web::Data::new(app.bi_stream_manage.clone())).wrap(CheckLogin::new(app.clone())).configure(console_config)).await;
                 let reqs = read_ndjson(&file)?;
+                let mut archive: Vec<u8> = vec![];
                 let mut made: BTreeSet<String> = BTreeSet::new();
                 for r in reqs.iter() {
                     // session for this privilege shape
@@ -367,7 +373,34 @@ pub fn main_authz(args: &[String]) -> anyhow::Result<()> {
                         }
                     }
                     let mut tr = test::TestRequest::default().method(method).uri(&uri).insert_header(("Token", tok.clone()));
-                    if r.get("json").map(|j| !j.is_null()).unwrap_or(false) {
+                    if let Some(h) = r["headers"].as_object() {
+                        for (k, v) in h {
+                            tr = tr.insert_header((k.as_str(), v.as_str().unwrap_or("").to_string()));
+                        }
+                    }
+                    if let Some(mp) = r.get("multipart").filter(|m| m.is_object()) {
+                        // an upload: the archive is what the download endpoint itself produces for the public namespace
+                        // (fetched with an unrestricted session), plus the text fields of the form
+                        if archive.is_empty() {
+                            let all = PrivilegeGroup::<Arc<String>>::all();
+                            let sess = UserSession { username: Arc::new("uarchive".to_string()), nickname: None, roles: vec![Arc::new("0".to_string())], namespace_privilege: Some(all), extend_infos: Default::default(), refresh_time: rnacos::now_second_i32() as u32 };
+                            put_cache(&app, CacheType::UserSession, "t18-archive", CacheValue::UserSession(Arc::new(sess)), false).await?;
+                            let resp = test::call_service(&svc, test::TestRequest::get().uri("/rnacos/api/console/v2/config/download?tenant=").insert_header(("Token", "t18-archive")).to_request()).await;
+                            archive = test::read_body(resp).await.to_vec();
+                            if archive.len() < 30 || &archive[..2] != b"PK" {
+                                return Err(anyhow::anyhow!("could not fetch an archive to upload"));
+                            }
+                        }
+                        let bnd = "----verifboundary7f3a";
+                        let mut body: Vec<u8> = vec![];
+                        for (k, v) in mp.as_object().unwrap() {
+                            body.extend_from_slice(format!("--{}\r\nContent-Disposition: form-data; name=\"{}\"\r\n\r\n{}\r\n", bnd, k, v.as_str().unwrap_or("")).as_bytes());
+                        }
+                        body.extend_from_slice(format!("--{}\r\nContent-Disposition: form-data; name=\"file\"; filename=\"a.zip\"\r\nContent-Type: application/zip\r\n\r\n", bnd).as_bytes());
+                        body.extend_from_slice(&archive);
+                        body.extend_from_slice(format!("\r\n--{}--\r\n", bnd).as_bytes());
+                        tr = tr.insert_header(("Content-Type", format!("multipart/form-data; boundary={}", bnd))).set_payload(body);
+                    } else if r.get("json").map(|j| !j.is_null()).unwrap_or(false) {
                         tr = tr.insert_header(("Content-Type", "application/json")).set_payload(r["json"].to_string());
                     } else if let Some(f) = r["form"].as_object() {
                         let fs: Vec<String> = f.iter().map(|(k, v)| format!("{}={}", k, v.as_str().unwrap_or(""))).collect();
